@@ -4,7 +4,7 @@ import vlib
 
 
 def run_worlds(chk, replay, machine, tracemod, replay_cmd, renderers, plans, sample_frac, cfg_of, count_key):
-    """plans: list of (dims, base, lodigits, simulate)"""
+    """plans: list of (dims, base, lodigits, sample) - sample None = exhaustive, else number of LCG-drawn worlds"""
     def replay_and_judge(vectors, rs):
         text = "\n".join(json.dumps(v) for v in vectors) + "\n"
         out = chk.vh([replay_cmd] + list(rs), stdin=text, timeout=1800)
@@ -29,9 +29,9 @@ def run_worlds(chk, replay, machine, tracemod, replay_cmd, renderers, plans, sam
     rnd = random.Random(chk.seed)
     allvec, model_counter, per_plan = [], [], []
     for dims, base, lod, sim in plans:
-        res = chk.tlc(machine, cfg_text=cfg_of(dims, base, lod), timeout=3000, simulate=sim,
-                      depth=3 if sim else None, extra=["-continue"],
-                      name="%s %s base %d%s" % (machine, dims, base, " simulate" if sim else ""))
+        res = chk.tlc(machine, cfg_text=cfg_of(dims, base, lod, sim or 0, chk.seed % 60000), timeout=3000,
+                      extra=["-continue"],
+                      name="%s %s base %d%s" % (machine, dims, base, (" sample %d" % sim) if sim else ""))
         mb = res.printed("MODELBAD")
         if res.violated and not mb:
             raise vlib.Inconclusive("%s model failed without a MODELBAD world: %s\n%s" % (machine, res.violated, res.out[-2000:]))
@@ -39,8 +39,6 @@ def run_worlds(chk, replay, machine, tracemod, replay_cmd, renderers, plans, sam
         if sim:
             seen = set()
             vec = [v for v in vec if not (v["code"] in seen or seen.add(v["code"]))]
-            chk.states += len(vec)
-            chk.transitions += len(vec)
         flagged = set(int(x.split(",")[0]) for x in mb)
         for c in sorted(flagged):
             model_counter.append(dict(dims=list(dims), base=base, code=c))
